@@ -158,9 +158,13 @@ class Interp(object):
                 return self.env[n["name"]]
             if n.get("dk") == "ParmVar":
                 return ("param", n["name"])
+            if n["name"] == "transpose":
+                return ("transpose",)
             raise OutOfVocabulary("unknown variable " + n["name"])
         if k == "CXXThisExpr":
             return ("this",)
+        if k == "LambdaExpr":
+            return ("lambda", n["c"][0])
         if k == "MemberExpr":
             base = self.ev(n["c"][0]) if n["c"] else None
             return ("member", n["name"], base)
@@ -220,11 +224,18 @@ class Interp(object):
                 v = self.ev(n["c"][2])
                 self.store(self.lval(n["c"][1]), v)
                 return v
+            if oop == "()":
+                fn = self.ev(n["c"][1])
+                if isinstance(fn, tuple) and fn[0] == "lambda" and len(n["c"]) == 2:
+                    return self.call_lambda(fn[1])
+                raise OutOfVocabulary("call of " + show(n["c"][1]))
             raise OutOfVocabulary("operator" + str(oop))
         if k in ("CallExpr", "CXXMemberCallExpr"):
             cal = n.get("callee", "")
             if cal in self.acc:
                 v = self.acc[cal]
+                if callable(v):
+                    return v([self.ev(c) for c in n["c"][1:]])
                 return [list(r) if isinstance(r, list) else r for r in v] if isinstance(v, list) else v
             args = [self.ev(c) for c in n["c"][1:]]
             short = cal.split("::")[-1]
@@ -242,10 +253,46 @@ class Interp(object):
                 return r
             if short == "gemv":
                 return self.gemv(args, n)
+            if short == "gemm":
+                return self.gemm(args)
+            if short == "range" and all(isinstance(a_, int) for a_ in args):
+                return list(range(*args))
             if short == "to_int" and len(args) == 1 and isinstance(args[0], int):
                 return args[0]
             raise OutOfVocabulary("call of " + cal)
         raise OutOfVocabulary("expression %s (%s)" % (show(n), k))
+
+    def call_lambda(self, body):
+        sub = Interp(self.f, self.acc)
+        sub.env = dict(self.env)          # captures (by value is enough: no write-back is used)
+        sub.steps = self.steps
+        try:
+            sub.run(body)
+        except Return as r:
+            self.steps = sub.steps
+            return r.v
+        self.steps = sub.steps
+        return None
+
+    def gemm(self, args):
+        tr = False
+        if len(args) == 3 and not isinstance(args[0], list) and "transpose" in repr(args[0]):
+            tr, args = True, args[1:]
+        if len(args) != 2:
+            raise OutOfVocabulary("gemm with %d arguments" % len(args))
+        a, b = args
+        if tr:
+            a = [[a[j][i] for j in range(len(a))] for i in range(len(a[0]))]
+        out = []
+        for i in range(len(a)):
+            row = []
+            for j in range(len(b[0])):
+                s_ = Poly()
+                for k_ in range(len(b)):
+                    s_ = s_ + as_poly(a[i][k_]) * as_poly(b[k_][j])
+                row.append(s_)
+            out.append(row)
+        return out
 
     def gemv(self, args, n):
         # gemv(a, x) | gemv(alpha, a, x, beta, y); the transposed forms are not needed here
@@ -306,6 +353,11 @@ class Interp(object):
                 v = self.ev(init) if init is not None else None
                 if isinstance(v, list):
                     v = [list(r) if isinstance(r, list) else r for r in v]
+                if v is None or (isinstance(v, list) and not v) or \
+                        (isinstance(v, tuple) and v and v[0] == "construct" and not v[2]):
+                    z = zeros_of(vd.get("ty", ""))
+                    if z is not None:
+                        v = z
                 self.env[vd["name"]] = v
         elif k == "ReturnStmt":
             raise Return(self.ev(st["c"][0]) if st["c"] else None)
@@ -321,6 +373,15 @@ class Interp(object):
                 n += 1
                 if n > 64:
                     raise OutOfVocabulary("loop with more than 64 iterations")
+        elif k == "CXXForRangeStmt":
+            kids = st["c"]
+            seq = self.ev(kids[1]["c"][0]["c"][0])
+            if not isinstance(seq, list):
+                raise OutOfVocabulary("range-for over " + show(kids[1]["c"][0]["c"][0]))
+            name = kids[6]["c"][0]["name"]
+            for item in seq:
+                self.env[name] = item
+                self.run(kids[7])
         elif k in ("NullStmt",):
             pass
         elif k == "DoStmt":
@@ -337,6 +398,18 @@ class Interp(object):
                 self.run(kids[2])
         else:
             self.ev(st)
+
+
+def zeros_of(ty):
+    import re
+    t = ty.replace("const ", "").replace("celeritas::", "")
+    m = re.match(r"^Array<Array<double, (\d+)>, (\d+)>$", t)
+    if m:
+        return [[Poly() for _ in range(int(m.group(1)))] for _ in range(int(m.group(2)))]
+    m = re.match(r"^Array<double, (\d+)>$", t)
+    if m:
+        return [Poly() for _ in range(int(m.group(1)))]
+    return None
 
 
 def interpret(func, accessors):
